@@ -168,6 +168,7 @@ def run_job(job):
     from richchk.model.mpq.stormlib.stormlib_archive_mode import StormLibArchiveMode
     from richchk.mpq.stormlib.stormlib_helper import StormLibHelper
     work = Path(tempfile.mkdtemp(prefix="verif-io-", dir=str(vlib.BUILD)))
+    restore = {}
     tmpd = work / "tmp"
     tmpd.mkdir()
     old_tmp = tempfile.tempdir
@@ -196,6 +197,25 @@ def run_job(job):
             (work / "realdir" / "sub").mkdir(parents=True)
             os.symlink(str(work / "realdir" / "sub"), str(work / "link"))
             dst = Path(os.path.join(str(work), "link", "..", "out.scx"))
+        elif job["dst"] == "tilde":
+            # a destination that STARTS with "~": for Python and for the C library that is a directory called "~" under the
+            # working directory, never the home directory (only a shell expands it); a file of that name sits in $HOME
+            home = work / "home"
+            home.mkdir()
+            (home / "out.scx").write_bytes(b"the file in the home directory")
+            (work / "~").mkdir()
+            restore["HOME"] = os.environ.get("HOME")
+            restore["cwd"] = os.getcwd()
+            os.environ["HOME"] = str(home)
+            os.chdir(str(work))
+            dst = Path("~/out.scx")
+        elif job["dst"] == "hardlink":
+            # the existing destination has a second name (a hard link): replacing the destination must not write through it
+            dst.write_bytes(b"previous content of the destination " * 50)
+            os.link(str(dst), str(work / "other-name.scx"))
+        elif job["dst"] == "hardlink-base":
+            # ... and that second name may be the base map itself (ln, a dedup tool)
+            os.link(str(base), str(dst))
         elif job["dst"] in ("star", "nul"):
             # names the C library reads differently from Python: it stops at a NUL, and takes "name*master" for the file
             # "name".  The file in front of the special character exists and is somebody else's.
@@ -213,6 +233,10 @@ def run_job(job):
             q = work / "out.scx"
             q.write_bytes(b"the file a textual collapse of '..' would hit")
             bystanders[q.name] = sha(q)
+        if job["dst"] == "hardlink":
+            bystanders["other-name.scx"] = sha(work / "other-name.scx")
+        if job["dst"] == "tilde":
+            bystanders["home/out.scx"] = sha(work / "home" / "out.scx")
         hidden = work / ".out.scx.swp"
         hidden.write_bytes(b"hidden bystander")
         bystanders[hidden.name] = sha(hidden)
@@ -275,7 +299,7 @@ def run_job(job):
         else:
             dclass = "new" if os.path.getsize(dst) > 100 else "broken"
         leftovers = sorted(os.listdir(tmpd)) + sorted(p.name for p in work.iterdir()
-                                                       if p.name not in ("tmp", "base.scx", "out.scx", "out.scx*", "linktarget.bin", "realdir", "link", "[EUD] out [v1].scx") and not p.name.startswith("sound")
+                                                       if p.name not in ("tmp", "base.scx", "out.scx", "out.scx*", "linktarget.bin", "realdir", "link", "[EUD] out [v1].scx", "home", "~", "other-name.scx") and not p.name.startswith("sound")
                                                        and p.name not in bystanders)
         disturbed = sorted(nm for nm, h in bystanders.items() if sha(work / nm) != h)
         if job["dst"] == "symlink" and dclass == "unchanged" and not os.path.islink(dst):
@@ -284,6 +308,12 @@ def run_job(job):
                 "audio_unchanged": [sha(a) for a in audio] == before["audio"], "dst": dclass,
                 "leftovers": leftovers, "bystanders_disturbed": disturbed, "steps": inj.n, "log": inj.log}
     finally:
+        if "cwd" in restore:
+            os.chdir(restore["cwd"])
+            if restore["HOME"] is None:
+                os.environ.pop("HOME", None)
+            else:
+                os.environ["HOME"] = restore["HOME"]
         tempfile.tempdir = old_tmp
         shutil.rmtree(work, ignore_errors=True)
 
